@@ -13,7 +13,8 @@ From SV Require Import Base Json MD5 Canon FS Ws CorrC02.
 Inductive prov := PInit | PUninit | PSpFresh | PIdCached | PIdFresh.
 Inductive dest := DAbsent | DInit | DHandle | DEmptyDir.
 Inductive route :=
-| REdit (p : list pstep) (a : eact) | RAssign (sp : json) | RUpdate (u : json) (ov : bool) | RMove | RClone.
+| REdit (p : list pstep) (a : eact) | RAssign (sp : json) | RUpdate (u : json) (ov : bool) | RMove | RClone
+| RMoveEdit (p : list pstep) (a : eact).   (* move to the other project, then change the state point through the SAME handle *)
 
 Record payload := mkPay { p_doc : json; p_files : list (path * list N) }.
 
@@ -38,7 +39,7 @@ Definition PA : path := [[65%N]].
 Definition PB : path := [[66%N]].
 
 Definition is_uninit (p : prov) : bool := match p with PUninit => true | _ => false end.
-Definition rekey_route (r : route) : bool := match r with RMove | RClone => false | _ => true end.
+Definition rekey_route (r : route) : bool := match r with RMove | RClone | RMoveEdit _ _ => false | _ => true end.
 
 (* ------------------------------------------------------------------ specification-level meaning *)
 (* update_statepoint without overwrite: a key that exists with a different (Python !=) value *)
@@ -55,6 +56,7 @@ Definition spec_new (r : route) (old : json) : option json :=
            | _, _ => Some old
            end
   | RMove | RClone => Some old
+  | RMoveEdit p a => edit_sp p a old
   end.
 
 Section Script.
@@ -127,9 +129,10 @@ Section Script.
       | REdit p a => OEdit hm p a
       | RAssign sp => OAssign hm sp
       | RUpdate u ov => OUpdateSp hm u ov
-      | RMove => OMove hm 1
+      | RMove | RMoveEdit _ _ => OMove hm 1
       | RClone => OClone 1 hm
       end in
+    let follow := match i_route i with RMoveEdit p a => [(4, OEdit hm p a)] | _ => [] end in
     let cl := if clone_expected i then Some nh else None in
     let o9 := obs_ops 0 (Some hm) ++ obs_ops 1 c1 ++ obs_ops 2 c2 ++ obs_ops 3 dp ++ obs_ops 4 pk ++ obs_ops 5 cl in
     let o10 := [(0, ONewSession PA); (40, OIds ns); (0, ONewSession PB); (41, OIds (S ns))] in
@@ -138,7 +141,7 @@ Section Script.
                ++ (if rekey_route (i_route i) then doc_ops 1 c1 ++ doc_ops 2 c2 else [])
                ++ doc_ops 5 cl in
     let o13 := init_ops dp ++ init_ops pk in
-    (o1 ++ o2 ++ o3 ++ o4 ++ o5a ++ o5b ++ o5c ++ [(1, OTree); (2, main); (3, OTree)] ++ o9 ++ o10 ++ o11
+    (o1 ++ o2 ++ o3 ++ o4 ++ o5a ++ o5b ++ o5c ++ [(1, OTree); (2, main)] ++ follow ++ [(3, OTree)] ++ o9 ++ o10 ++ o11
         ++ [(60, OTree)] ++ o13 ++ [(70, OTree)],
      mkRoles hm c1 c2 dp pk cl ns (S ns)).
 
@@ -240,6 +243,25 @@ Section Script.
                  && tree_same_except [src; dst] pre post
                  && shows 0 true oid dst old && doc_is 0 && common
              end
+    | RMoveEdit p a =>
+        (* move, then a re-key through the moved handle: the job must end up in B under the new id with everything *)
+        match edit_sp p a old with
+        | None => false
+        | Some nsp =>
+            let nid := calc_id frepr nsp in
+            let dst := bws ++ [nid] in
+            if uninit then is_exn (at_ 2) ERuntimeError && unchanged && common
+            else match i_dest i with
+                 | DAbsent =>
+                     is_unit (at_ 2) && is_unit (at_ 4) && negb (str_eqb nid oid)
+                     && none_under src post && none_under (bws ++ [oid]) post && isdir_t post dst
+                     && tree_same_except [[SPF]] (rel_tree src pre) (rel_tree dst post)
+                     && match file_json post (dst ++ [SPF]) with Some v => json_same v nsp | None => false end
+                     && tree_same_except [src; dst] pre post
+                     && shows 0 true nid dst nsp && doc_is 0 && common
+                 | _ => true
+                 end
+        end
     | RClone =>
         let dst := bws ++ [oid] in
         if uninit then is_exn (at_ 2) EValueError && unchanged && common
